@@ -6,6 +6,8 @@
 package vos
 
 import (
+	"errors"
+	"io"
 	"io/fs"
 	"os"
 	"sync"
@@ -36,6 +38,22 @@ var (
 	EnvGet  func(key string) (string, bool)
 	EnvSet  func(key, val string)
 	EnvList func() []string
+)
+
+// Foreign is a fault-menu entry that, instead of failing the call, lets a
+// foreign program act on the directory just before the call proceeds.
+type Foreign struct {
+	Name string
+	Do   func()
+}
+
+func (f *Foreign) Error() string { return "foreign:" + f.Name }
+
+// Special menu entries understood by individual operations.
+var (
+	ErrShort     = errors.New("verif: short write")      // FWrite/FWriteAt: half the bytes are written, io.ErrShortWrite returned
+	ErrStaleStat = errors.New("verif: stale size")       // FStat: reports the size one page smaller
+	ErrShortMap  = errors.New("verif: short mapping")    // Mmap: maps one page less than the file holds
 )
 
 var defaultErrs = map[string][]error{
@@ -73,7 +91,16 @@ func pre(op, path string) error {
 		}
 		if len(menu) > 0 {
 			if k := sched.Choose(op, len(menu)+1); k > 0 {
-				return &fs.PathError{Op: op, Path: path, Err: menu[k-1]}
+				switch e := menu[k-1].(type) {
+				case *Foreign:
+					e.Do()
+					return nil
+				default:
+					if e == ErrShort || e == ErrStaleStat || e == ErrShortMap {
+						return e
+					}
+					return &fs.PathError{Op: op, Path: path, Err: e}
+				}
 			}
 		}
 	}
@@ -216,6 +243,10 @@ func fname(f *os.File) string {
 
 func FWrite(f *os.File, b []byte) (int, error) {
 	if err := pre("FWrite", fname(f)); err != nil {
+		if err == ErrShort {
+			n, _ := f.Write(b[:len(b)/2])
+			return n, io.ErrShortWrite
+		}
 		return 0, err
 	}
 	return f.Write(b)
@@ -223,6 +254,10 @@ func FWrite(f *os.File, b []byte) (int, error) {
 func FWriteString(f *os.File, s string) (int, error) { return FWrite(f, []byte(s)) }
 func FWriteAt(f *os.File, b []byte, off int64) (int, error) {
 	if err := pre("FWriteAt", fname(f)); err != nil {
+		if err == ErrShort {
+			n, _ := f.WriteAt(b[:len(b)/2], off)
+			return n, io.ErrShortWrite
+		}
 		return 0, err
 	}
 	return f.WriteAt(b, off)
@@ -235,6 +270,17 @@ func FRead(f *os.File, b []byte) (int, error) {
 }
 func FStat(f *os.File) (os.FileInfo, error) {
 	if err := pre("FStat", fname(f)); err != nil {
+		if err == ErrStaleStat {
+			fi, err := f.Stat()
+			if err != nil {
+				return nil, err
+			}
+			sz := fi.Size() - 16384
+			if sz < 0 {
+				sz = 0
+			}
+			return staleInfo{fi, sz}, nil
+		}
 		return nil, err
 	}
 	return f.Stat()
@@ -286,11 +332,25 @@ var (
 	Maps, Unmaps int64
 )
 
+type staleInfo struct {
+	os.FileInfo
+	size int64
+}
+
+func (s staleInfo) Size() int64 { return s.size }
+
 func Mmap(f *os.File) (*mmap.Data, error) {
+	short := false
 	if err := pre("Mmap", fname(f)); err != nil {
-		return nil, err
+		if err != ErrShortMap {
+			return nil, err
+		}
+		short = true
 	}
 	d, err := mmap.Mmap(f)
+	if err == nil && short && len(d.Data) > 16384 {
+		d.Data = d.Data[:len(d.Data)-16384]
+	}
 	if err == nil && len(d.Data) > 0 {
 		lo := uintptr(unsafe.Pointer(&d.Data[0]))
 		mu.Lock()
